@@ -31,6 +31,7 @@ Proof. exact state_matches_events. Qed.
 
 (* STARTDT act on an open, running connection: state STARTED, last report ACTIVATED *)
 Theorem C18_startdt_handled : forall s i x, Inv s -> nth_error (v_slots s) i = Some x -> c_used x = true -> c_run x = true ->
+  mem (c_sid x) (v_wfail s) = false ->          (* STARTDT con could be written; otherwise the connection ends, not activated *)
   let s' := handle_msg i (c_sid x) MStart s in
   exists x', nth_error (v_slots s') i = Some x' /\ c_st x' = 1 /\ c_sid x' = c_sid x /\
              phase_of (v_log s') (c_sid x) = PStarted.
